@@ -1,4 +1,6 @@
 """C17 - static type checker: only the 'same diagnostics each time' clause is decided statically."""
+import re
+
 from rules.C14 import r1
 
 DESCRIPTION = ("C17 clause decided: 'gives the same diagnostics each time' - every iteration over a randomly seeded "
@@ -8,8 +10,58 @@ NOT_DECIDED = ("termination, soundness of the assigned types and absence of fals
                "semantic properties of the type system, not decided by static analysis of the checker's shape")
 
 
+def _field_flow(f, call_re, arg_index, field):
+    """does argument `arg_index` of the (single kind of) call matching call_re derive from a read of `field`?"""
+    from kern import origins
+    out = []
+    for c in f.calls:
+        if c.bb in f.cleanup or not re.search(call_re, c.name) or len(c.args) <= arg_index:
+            continue
+        seen, work, hit = set(), [c.args[arg_index]], False
+        while work:
+            op = work.pop()
+            for l in re.findall(r"_\d+", op):
+                if l in seen:
+                    continue
+                seen.add(l)
+                for st in f.stmts:
+                    if st.lhs_local == l:
+                        if field in st.text():
+                            hit = True
+                        work.append(st.text())
+                for d in f.calls:
+                    if d.dest_local == l and re.search(r"(Deref>::deref|as_str|as_ref|borrow)$", d.name):
+                        work.extend(d.args)
+        out.append(hit)
+    return out
+
+
+def r2_load_alias(ctx, F):
+    """`load("m", local = "their")`: the evaluator looks `their` up in the loaded module and binds `local`
+    (Compiler::eval_load: load_symbol(their), slot of local). The type checker must type `local` with the type the
+    loaded module's interface gives `their` (GlobalTypesBuilder::load: Interface::get(their)); looking the interface up
+    under the local name gives an aliased import the type of another export (false errors / wrong exported types)."""
+    ev = F.one(r"eval::compiler::module::<impl eval::compiler::Compiler<'v, '_, '_, '_>>::eval_load$")
+    ref = _field_flow(ev, r"environment::modules::Module::<'v>::load_symbol$", 2, "LoadArgP::their}")
+    ctx.check(bool(ref) and all(ref), "C17.R2", "reference:eval-load-looks-up-their",
+              "the evaluator looks the exported (`their`) name up in the loaded module",
+              "eval_load no longer passes LoadArgP.their to load_symbol: the reference the typing rule compares against "
+              "has changed", fn=ev)
+    ty = F.one(r"typing::fill_types_for_lint::GlobalTypesBuilder::<'a, 'v>::load$")
+    got = _field_flow(ty, r"typing::interface::Interface::get$", 1, "LoadArgP::their}")
+    ctx.check(bool(got) and all(got), "C17.R2", "typing:load-looks-up-their",
+              "the type of a loaded symbol is looked up under its exported (`their`) name",
+              "GlobalTypesBuilder::load looks the loaded module's interface up with a key that does not come from "
+              "LoadArgP.their (the exported name): `load(\"m\", a = \"b\")` types `a` as m's `a`, not m's `b`", fn=ty)
+    bind = _field_flow(ty, r"GlobalTypesBuilder::<'a, 'v>::assign_ident_value$", 1, "LoadArgP::local}")
+    ctx.check(bool(bind) and all(bind), "C17.R2", "typing:load-binds-local",
+              "the looked-up type is bound to the local name", "GlobalTypesBuilder::load no longer binds LoadArgP.local",
+              fn=ty)
+
+
 def run(ctx):
     F = ctx.facts("core")
+    r2_load_alias(ctx, F)
     total, nrand = r1(ctx, F, rule="C17.R1", only_files=r"starlark/src/(typing|analysis)/")
     ctx.floor("C17.R1", "HashMap/HashSet iteration sites in typing/ and analysis/", total, 7, inventory=True)
     ctx.info["random_hasher_iteration_sites"] = nrand
